@@ -8,11 +8,12 @@ use std::net::IpAddr;
 use c2pa::{http::http::Uri, verif_hooks::c27 as hk};
 use serde_json::{json, Value};
 
-use crate::c26::{run_chain, uri_json};
+use crate::c26::{run_chain, run_ctx, uri_json};
 
 pub fn run(case: &Value) -> Value {
     match case["kind"].as_str().unwrap_or("") {
         "chain" => run_chain(case),
+        "ctx" => run_ctx(case),
         "host" => {
             let uri: Uri = match case["uri"].as_str().unwrap_or("").parse() {
                 Ok(u) => u,
